@@ -50,17 +50,17 @@ func c15World(cfgMut func(*fosite.Config)) *world.World {
 }
 
 type mut struct {
-	name  string
-	valid bool // does the assertion still satisfy every requirement of the statement?
+	name   string
+	valid  bool // does the assertion still satisfy every requirement of the statement?
 	unspec bool
-	apply func(cl map[string]interface{}, hd map[string]interface{}, sg *signSpec)
+	apply  func(cl map[string]interface{}, hd map[string]interface{}, sg *signSpec)
 }
 
 type signSpec struct {
 	key      interface{}
 	alg      string
 	raw      func(hd, cl map[string]interface{}) string // overrides signing completely
-	clientID string                                      // client_id form parameter ("" = absent)
+	clientID string                                     // client_id form parameter ("" = absent)
 }
 
 func c15seq(c *run.Ctx) {
@@ -73,9 +73,13 @@ func c15seq(c *run.Ctx) {
 	caMuts := []mut{
 		{"valid", true, false, func(cl, hd map[string]interface{}, sg *signSpec) {}},
 		{"valid-no-kid", true, false, func(cl, hd map[string]interface{}, sg *signSpec) { delete(hd, "kid") }},
-		{"valid-aud-list", true, false, func(cl, hd map[string]interface{}, sg *signSpec) { cl["aud"] = []string{"https://x.example", world.TokenURL} }},
+		{"valid-aud-list", true, false, func(cl, hd map[string]interface{}, sg *signSpec) {
+			cl["aud"] = []string{"https://x.example", world.TokenURL}
+		}},
 		{"valid-client_id-param", true, false, func(cl, hd map[string]interface{}, sg *signSpec) { sg.clientID = "pk-rs" }},
-		{"valid-exp-float", true, false, func(cl, hd map[string]interface{}, sg *signSpec) { cl["exp"] = float64(now().Add(90*time.Second).Unix()) + 0.5 }},
+		{"valid-exp-float", true, false, func(cl, hd map[string]interface{}, sg *signSpec) {
+			cl["exp"] = float64(now().Add(90*time.Second).Unix()) + 0.5
+		}},
 		{"iss-absent", false, false, func(cl, hd map[string]interface{}, sg *signSpec) { delete(cl, "iss") }},
 		{"iss-other-client", false, false, func(cl, hd map[string]interface{}, sg *signSpec) { cl["iss"] = "pk-other" }},
 		{"iss-number", false, false, func(cl, hd map[string]interface{}, sg *signSpec) { cl["iss"] = 7 }},
@@ -85,7 +89,9 @@ func c15seq(c *run.Ctx) {
 		{"client_id-param-other", false, false, func(cl, hd map[string]interface{}, sg *signSpec) { sg.clientID = "pk-other" }},
 		{"aud-absent", false, false, func(cl, hd map[string]interface{}, sg *signSpec) { delete(cl, "aud") }},
 		{"aud-other", false, false, func(cl, hd map[string]interface{}, sg *signSpec) { cl["aud"] = "https://evil.example/token" }},
-		{"aud-list-without", false, false, func(cl, hd map[string]interface{}, sg *signSpec) { cl["aud"] = []string{"https://a.example", "https://b.example"} }},
+		{"aud-list-without", false, false, func(cl, hd map[string]interface{}, sg *signSpec) {
+			cl["aud"] = []string{"https://a.example", "https://b.example"}
+		}},
 		{"aud-prefix", false, false, func(cl, hd map[string]interface{}, sg *signSpec) { cl["aud"] = world.TokenURL + "/" }},
 		{"aud-issuer-only", false, false, func(cl, hd map[string]interface{}, sg *signSpec) { cl["aud"] = world.Issuer }},
 		{"aud-number", false, false, func(cl, hd map[string]interface{}, sg *signSpec) { cl["aud"] = 5 }},
@@ -102,11 +108,17 @@ func c15seq(c *run.Ctx) {
 		{"iat-future", false, true, func(cl, hd map[string]interface{}, sg *signSpec) { cl["iat"] = now().Add(time.Hour).Unix() }},
 		{"alg-none", false, false, func(cl, hd map[string]interface{}, sg *signSpec) { sg.alg = "none" }},
 		{"alg-hs256-pubkey", false, false, func(cl, hd map[string]interface{}, sg *signSpec) {
-			sg.raw = func(h, c map[string]interface{}) string { h["alg"] = "HS256"; return world.HS256Raw(h, c, keys.ClientRSA[0].PublicKey.N.Bytes()) }
+			sg.raw = func(h, c map[string]interface{}) string {
+				h["alg"] = "HS256"
+				return world.HS256Raw(h, c, keys.ClientRSA[0].PublicKey.N.Bytes())
+			}
 		}},
 		{"alg-rs384-not-registered", false, false, func(cl, hd map[string]interface{}, sg *signSpec) { sg.alg = "RS384" }},
 		{"alg-ps256-not-registered", false, false, func(cl, hd map[string]interface{}, sg *signSpec) { sg.alg = "PS256" }},
-		{"alg-es256-for-rs-client", false, false, func(cl, hd map[string]interface{}, sg *signSpec) { sg.alg, sg.key = "ES256", keys.ClientEC[0]; hd["kid"] = "k1" }},
+		{"alg-es256-for-rs-client", false, false, func(cl, hd map[string]interface{}, sg *signSpec) {
+			sg.alg, sg.key = "ES256", keys.ClientEC[0]
+			hd["kid"] = "k1"
+		}},
 		{"kid-unknown", false, false, func(cl, hd map[string]interface{}, sg *signSpec) { hd["kid"] = "nope" }},
 		{"kid-of-other-key-type", false, false, func(cl, hd map[string]interface{}, sg *signSpec) { hd["kid"] = "k1" }},
 		{"key-of-other-client", false, false, func(cl, hd map[string]interface{}, sg *signSpec) { sg.key = keys.ClientRSA[2] }},
@@ -241,9 +253,9 @@ func c15Bearer(c *run.Ctx, w0 *world.World, round int) {
 	}
 	now := time.Now
 	for _, cfg := range []struct {
-		name                string
-		jtiOpt, iatOpt      bool
-		maxDur              time.Duration
+		name           string
+		jtiOpt, iatOpt bool
+		maxDur         time.Duration
 	}{{"default", false, false, 0}, {"jti-optional", true, false, 0}, {"iat-optional", false, true, 0}, {"both-optional-max-10m", true, true, 10 * time.Minute}} {
 		w := c15World(func(c *fosite.Config) {
 			c.GrantTypeJWTBearerIDOptional, c.GrantTypeJWTBearerIssuedDateOptional, c.GrantTypeJWTBearerMaxDuration = cfg.jtiOpt, cfg.iatOpt, cfg.maxDur
@@ -262,23 +274,40 @@ func c15Bearer(c *run.Ctx, w0 *world.World, round int) {
 			{"sub-absent", false, false, func(cl, hd map[string]interface{}, sg *signSpec, f url.Values) { delete(cl, "sub") }},
 			{"iss-unregistered", false, false, func(cl, hd map[string]interface{}, sg *signSpec, f url.Values) { cl["iss"] = "iss-nobody" }},
 			{"sub-of-other-key", false, false, func(cl, hd map[string]interface{}, sg *signSpec, f url.Values) { cl["sub"] = "svc-other" }},
-			{"iss-of-other-key", false, false, func(cl, hd map[string]interface{}, sg *signSpec, f url.Values) { cl["iss"] = "iss-other"; hd["kid"] = "bk2" }},
+			{"iss-of-other-key", false, false, func(cl, hd map[string]interface{}, sg *signSpec, f url.Values) {
+				cl["iss"] = "iss-other"
+				hd["kid"] = "bk2"
+			}},
 			{"key-of-other-subject", false, false, func(cl, hd map[string]interface{}, sg *signSpec, f url.Values) { sg.key = keys.ClientRSA[2] }},
 			{"key-unregistered", false, false, func(cl, hd map[string]interface{}, sg *signSpec, f url.Values) { sg.key = keys.ServerRSA }},
-			{"key-unregistered-no-kid", false, false, func(cl, hd map[string]interface{}, sg *signSpec, f url.Values) { sg.key = keys.ServerRSA; delete(hd, "kid") }},
+			{"key-unregistered-no-kid", false, false, func(cl, hd map[string]interface{}, sg *signSpec, f url.Values) {
+				sg.key = keys.ServerRSA
+				delete(hd, "kid")
+			}},
 			{"kid-unknown", false, false, func(cl, hd map[string]interface{}, sg *signSpec, f url.Values) { hd["kid"] = "nope" }},
 			{"alg-none", false, false, func(cl, hd map[string]interface{}, sg *signSpec, f url.Values) { sg.alg = "none" }},
 			{"alg-hs256-pubkey", false, false, func(cl, hd map[string]interface{}, sg *signSpec, f url.Values) {
-				sg.raw = func(h, c map[string]interface{}) string { h["alg"] = "HS256"; return world.HS256Raw(h, c, keys.ClientRSA[1].PublicKey.N.Bytes()) }
+				sg.raw = func(h, c map[string]interface{}) string {
+					h["alg"] = "HS256"
+					return world.HS256Raw(h, c, keys.ClientRSA[1].PublicKey.N.Bytes())
+				}
 			}},
 			{"aud-absent", false, false, func(cl, hd map[string]interface{}, sg *signSpec, f url.Values) { delete(cl, "aud") }},
-			{"aud-other", false, false, func(cl, hd map[string]interface{}, sg *signSpec, f url.Values) { cl["aud"] = []string{"https://evil.example/token"} }},
+			{"aud-other", false, false, func(cl, hd map[string]interface{}, sg *signSpec, f url.Values) {
+				cl["aud"] = []string{"https://evil.example/token"}
+			}},
 			{"aud-prefix", false, false, func(cl, hd map[string]interface{}, sg *signSpec, f url.Values) { cl["aud"] = world.TokenURL + "x" }},
 			{"exp-absent", false, false, func(cl, hd map[string]interface{}, sg *signSpec, f url.Values) { delete(cl, "exp") }},
-			{"exp-past", false, false, func(cl, hd map[string]interface{}, sg *signSpec, f url.Values) { cl["exp"] = now().Add(-time.Minute).Unix() }},
-			{"exp-1s-ago", false, false, func(cl, hd map[string]interface{}, sg *signSpec, f url.Values) { cl["exp"] = now().Add(-time.Second).Unix() }},
+			{"exp-past", false, false, func(cl, hd map[string]interface{}, sg *signSpec, f url.Values) {
+				cl["exp"] = now().Add(-time.Minute).Unix()
+			}},
+			{"exp-1s-ago", false, false, func(cl, hd map[string]interface{}, sg *signSpec, f url.Values) {
+				cl["exp"] = now().Add(-time.Second).Unix()
+			}},
 			{"exp-now", false, true, func(cl, hd map[string]interface{}, sg *signSpec, f url.Values) { cl["exp"] = now().Unix() }},
-			{"exp-beyond-max", false, false, func(cl, hd map[string]interface{}, sg *signSpec, f url.Values) { cl["exp"] = now().Add(maxDur + time.Minute).Unix() }},
+			{"exp-beyond-max", false, false, func(cl, hd map[string]interface{}, sg *signSpec, f url.Values) {
+				cl["exp"] = now().Add(maxDur + time.Minute).Unix()
+			}},
 			{"exp-beyond-max-no-iat", !true, !cfg.iatOpt, func(cl, hd map[string]interface{}, sg *signSpec, f url.Values) {
 				cl["exp"] = now().Add(maxDur + time.Minute).Unix()
 				delete(cl, "iat")
@@ -287,9 +316,13 @@ func c15Bearer(c *run.Ctx, w0 *world.World, round int) {
 				cl["exp"] = now().Add(maxDur / 2).Unix()
 				cl["iat"] = now().Add(-maxDur).Unix()
 			}},
-			{"nbf-future", false, false, func(cl, hd map[string]interface{}, sg *signSpec, f url.Values) { cl["nbf"] = now().Add(time.Minute).Unix() }},
+			{"nbf-future", false, false, func(cl, hd map[string]interface{}, sg *signSpec, f url.Values) {
+				cl["nbf"] = now().Add(time.Minute).Unix()
+			}},
 			{"nbf-now", false, true, func(cl, hd map[string]interface{}, sg *signSpec, f url.Values) { cl["nbf"] = now().Unix() }},
-			{"nbf-past", true, false, func(cl, hd map[string]interface{}, sg *signSpec, f url.Values) { cl["nbf"] = now().Add(-time.Minute).Unix() }},
+			{"nbf-past", true, false, func(cl, hd map[string]interface{}, sg *signSpec, f url.Values) {
+				cl["nbf"] = now().Add(-time.Minute).Unix()
+			}},
 			{"iat-absent", cfg.iatOpt, false, func(cl, hd map[string]interface{}, sg *signSpec, f url.Values) { delete(cl, "iat") }},
 			{"jti-absent", cfg.jtiOpt, false, func(cl, hd map[string]interface{}, sg *signSpec, f url.Values) { delete(cl, "jti") }},
 			{"jti-empty", cfg.jtiOpt, false, func(cl, hd map[string]interface{}, sg *signSpec, f url.Values) { cl["jti"] = "" }},
